@@ -40,11 +40,12 @@ Definition conn_init : conn := {| ready := false; queue := []; wire := [] |}.
 Inductive clabel :=
 | LApp (n : N)          (* the application queues a frame (send_frame) at any moment after connect() started *)
 | LSuspend              (* the provider or transport.connect() suspends: another task may run *)
-| LTransportReady       (* connect() returned: set_result(transport) and send_priority_frame(SETUP), one atomic section *)
+| LTransportReady       (* a transport was obtained: send_priority_frame(SETUP) and set_result(transport), one atomic section
+                           (transport.connect() is awaited afterwards: LSuspend) *)
 | LSend.                (* one sender step *)
 
-(* [early]: the defect repaired by fix 4b5e611 — the transport future was resolved BEFORE awaiting
-   transport.connect(); then the sender could run before SETUP was queued.  early = false is the code as it is. *)
+(* the defect repaired by fix c522af0 — the transport future was resolved before awaiting transport.connect() while
+   SETUP was queued only after it: the sender could run before SETUP was queued. *)
 Inductive elabel := E (l : clabel) | EPublishEarly | EQueueSetup.
 
 Definition cstep (s : conn) (l : clabel) : conn :=
